@@ -28,9 +28,9 @@ Definition HOLD_US : Z := HOLD_MS * 1000.
 Definition MULTICLICK_US : Z := MULTICLICK_MS * 1000.
 Definition CFG_PRESS_US : Z := CFG_PRESS_MS * 1000.
 Definition MOTION_INIT_US : Z := MOTION_INIT_MS * 1000.
-Definition CFG_COUNT_RESET_US : Z := 2000 * 1000.   (* literal in legacy_state_change_handling *)
-Definition RELAY_D1 : Z := 10.                       (* os_delay_us(10) literals in supla_esp_gpio_relay_hi *)
-Definition RELAY_D2 : Z := 10.
+Definition CFG_COUNT_RESET_US : Z := CFG_COUNT_RESET_US_.   (* literal 2000 * 1000 in legacy_state_change_handling, read by gen/grp_c11.py *)
+Definition RELAY_D1 : Z := RELAY_D1_US.              (* the two literal os_delay_us(N) of supla_esp_gpio_relay_hi, read by gen/grp_c11.py *)
+Definition RELAY_D2 : Z := RELAY_D2_US.
 Definition RELAY_CH : Z := 0.                        (* channel of the relay in the harness board *)
 Definition NOREL : Z := 255.
 Definition RELAY_GPIO : Z := 4.                      (* GPIO of the relay in the harness board *)
